@@ -227,7 +227,7 @@ class LinUnit(Unit):
             ctl = {w: f.result() for w, f in cfuts.items()}
         ctx.bump("trace_validation_states", states)
         ctx.states += states
-        kinds = {"free": 0, "forced": 0}
+        kinds = {"free": 0, "forced": 0, "controlled": 0}
         events = 0
         bad = {id(h) for h, _, _ in rej} | {id(h) for h in und}
         for h in hs:
@@ -235,9 +235,10 @@ class LinUnit(Unit):
                 kinds[json.loads(h[0]).get("kind", "free")] += 1
                 events += len(h)
         ctx.validated += kinds["free"]      # code -> model: free-running histories accepted by TLC
-        ctx.replayed += kinds["forced"]     # model -> code: forced schedules executed on the real store (and accepted)
+        ctx.replayed += kinds["forced"] + kinds["controlled"]   # model -> code: forced / controlled schedules executed on the real store (and accepted)
         ctx.bump("validated_trace_events", events)
         ctx.bump("forced_schedules", kinds["forced"])
+        ctx.bump("controlled_schedules_at_map_lock_grain", kinds["controlled"])
         self.info.update({"histories": len(hs), "accepted": acc, "rejected": len(rej), "undecided": len(und),
                           "events": sum(len(h) for h in hs), "tlc_states": states})
         for h, local, exp in rej:
@@ -320,9 +321,9 @@ def units(ctx):
         "C05: a batch is built by one goroutine; its Commit is one call whose individual writes (last Set/Delete per key) "
         "take effect one by one, in any order, between the Commit's invocation and its return")
     ctx.assumptions.append(
-        "C05: schedules inside mapdb's critical sections are not forced (no hooks under the map lock): there the "
-        "interleavings are whatever the Go scheduler, GOMAXPROCS 1..16 and random yields produce; forced schedules "
-        "use the consumer callbacks of Iterate/IterateKeys as gates")
+        "C05: free-running histories interleave as the Go scheduler, GOMAXPROCS 1..16 and random yields produce; forced schedules "
+        "use the consumer callbacks of Iterate/IterateKeys as gates; controlled schedules (2-3 goroutines with private handles) "
+        "are cut at every acquisition of the shared map's lock (hook mapdb.VerifHook), not inside a critical section")
     return [
         # the specification itself: every interleaving of Invoke / Lin / Return of the closed composition
         McUnit(SUB, "KVStoreConcMC", "", name="KVStoreConc:2x2", deadlock=True, thorough_cfgkind="thorough", timeout=1800),
@@ -331,6 +332,6 @@ def units(ctx):
         McUnit(SUB, "KVStoreConcMC", "per_entry", name="ctl-iterate-per-entry", expect="IterSnapshot", deadlock=True),
         # the real store: free-running + forced histories (race build), validated by TLC with silent Lin steps
         LinUnit("KVStoreConc:histories",
-                args=["-histories", 300, "-forced", 100, "-bursts", 20],
-                thorough_args=["-histories", 5000, "-forced", 1000, "-bursts", 200]),
+                args=["-histories", 300, "-forced", 100, "-bursts", 20, "-controlled", 300],
+                thorough_args=["-histories", 5000, "-forced", 1000, "-bursts", 200, "-controlled", 5000]),
     ]
